@@ -283,6 +283,62 @@ def exhaustive_histories(ctx, rng, maxlen):
         shutil.rmtree(root, ignore_errors=True)
 
 
+def crc_collision_pair(rng):
+    """two distinct paths of one category whose full-path CRC-32 is equal (birthday search) but whose folder / file-name hashes differ"""
+    seen = {}
+    for _ in range(400000):
+        p = "bg/ffxiv/zon_z1/%s/%s.dat" % (seg(rng, 6, 6).lower(), seg(rng, 8, 8).lower())
+        h = sq.hash2(p)
+        q = seen.get(h)
+        if q is not None and q != p and sq.hash1(q) != sq.hash1(p):
+            return q, p
+        seen[h] = p
+    return None
+
+
+def colliding_paths(ctx, rng):
+    """X is stored, Y (same full-path CRC, other folder and file-name hashes) is not: an index keyed on (folder, file) hashes must keep
+    them apart in whatever order they are asked for; an index keyed on the full-path hash legitimately cannot"""
+    pair = crc_collision_pair(rng)
+    if pair is None:
+        ctx.note("no CRC collision found in 400 000 paths")
+        return
+    x, y = pair
+    for kind in (1, 2):
+        root = ctx.path("game-coll%d" % kind)
+        rd = os.path.join(root, "sqpack", "ffxiv")
+        os.makedirs(rd)
+        db = sq.DatBuilder(0)
+        payload = b"LOC collision X"
+        entry, _ = sq.standard_entry([payload], ["raw"])
+        off = db.add(entry)
+        open(os.path.join(rd, sq.dat_filename(sq.CATEGORIES["bg"], 0, 0, "win32", 0)), "wb").write(db.bytes())
+        h = sq.hash1(x) if kind == 1 else sq.hash2(x)
+        open(os.path.join(rd, sq.index_filename(sq.CATEGORIES["bg"], 0, 0, "win32", kind)), "wb").write(sq.index_file(kind, [(h, 0, off, False)], 0, ndats=1))
+        y_present = kind == 2       # the full-path hash of Y is in the index2 file
+        try:
+            for order in ((x, y), (y, x), (x, y, x, y)):
+                r = ctx.call("gd.open", "win32", root)
+                if not r.ok:
+                    break
+                hd = r.value["handle"]
+                for p in order:
+                    for op in ("exists", "extract"):
+                        rec = ctx.call("gd." + op, hd, p, *(["-"] if op == "extract" else []), input_bytes=4096)
+                        ctx.check_mon(rec, 4096, residual=False, files=[root])
+                        if rec.outcome not in ("ok", "none"):
+                            continue
+                        said = bool(rec.value) if op == "exists" else rec.ok
+                        want = True if p == x else y_present
+                        ctx.case(digest("coll", kind, order, p, op), True, ["crc-collision-pair", "crc-collision:index%d" % kind], sample=dict(stored=x, same_full_crc=y, index=kind, order=list(order)) if p == y and op == "exists" else None)
+                        if said != want:
+                            ctx.violation("lookup", dict(sub="present_but_not_stored" if said else "stored_but_absent", q=op, cls="crc-collision"),
+                                          dict(stored=x, queried=p, full_path_crc=sq.hash2(x), index_kind=kind, order=list(order)), files=[root])
+                ctx.call("drop", hd)
+        finally:
+            shutil.rmtree(root, ignore_errors=True)
+
+
 def two_handles(ctx, rng, nq):
     """two installations open at the same time, queries interleaved between the two handles (and a second handle on the first
     installation): an answer must come from the handle's own installation, whatever another live handle has loaded"""
@@ -323,6 +379,8 @@ def shard(ctx):
     exhaustive_histories(ctx, rng, P.get("hist", 2))
     for _ in range(P.get("two", 1)):
         two_handles(ctx, rng, 120)
+    if ctx.index % 4 == 0 and ctx.variant != "asan":
+        colliding_paths(ctx, rng)
     for i in range(P["n"]):
         root = ctx.path("game%d" % i)
         shape = "normal"
